@@ -194,6 +194,30 @@ fn workspace_op(ws: &mut dmntk_workspace::Workspace, op: &str) -> String {
   }
 }
 
+/// `null(message)` -> `null` everywhere in a rendered value (the message is diagnostic text, not part of the value)
+fn strip_null_messages(s: &str) -> String {
+  let cs: Vec<char> = s.chars().collect();
+  let mut out = String::new();
+  let mut i = 0;
+  while i < cs.len() {
+    if cs[i..].starts_with(&['n', 'u', 'l', 'l', '(']) && (i == 0 || !cs[i - 1].is_alphanumeric()) {
+      out.push_str("null");
+      let mut depth = 0i32;
+      let mut j = i + 4;
+      while j < cs.len() {
+        if cs[j] == '(' { depth += 1; }
+        if cs[j] == ')' { depth -= 1; if depth == 0 { j += 1; break; } }
+        j += 1;
+      }
+      i = j;
+    } else {
+      out.push(cs[i]);
+      i += 1;
+    }
+  }
+  out
+}
+
 fn main() {
   // panics are caught and reported by the commands; VERIF_PANIC_MESSAGES=1 shows where they come from
   if std::env::var("VERIF_PANIC_MESSAGES").is_err() { std::panic::set_hook(Box::new(|_| {})); }
@@ -441,7 +465,7 @@ fn main() {
       for line in text.lines() {
         if let Some((e, expected)) = line.split_once(" ==> ") {
           cases += 1;
-          let got = eval(e.trim());
+          let got = strip_null_messages(&eval(e.trim()));
           let exp = expected.trim();
           // `!v`: any answer but v (and no panic / error)
           let ok = if exp == "null" { got.starts_with("VALUE null") } else if let Some(not) = exp.strip_prefix('!') { got.starts_with("VALUE ") && got != format!("VALUE {}", not) } else { got == format!("VALUE {}", exp) };
